@@ -19,7 +19,7 @@ Arguments Z.max : simpl never. Arguments Z.quot : simpl never.
 (* ------------------------------------------------------------------------------------------ *)
 Lemma static_sum_nonneg opts dc mw :
   0 <= dc -> Forall (fun o => 0 <= static_w o mw) opts -> 0 <= zsum (map (fun o => static_w o mw + dc) opts).
-Proof. intros Hd H. induction H; cbn [map zsum]; lia. Qed.
+Proof. intros Hd H. induction H; cbn [map zsum]; qlia. Qed.
 
 Lemma cw_phase1_fp opts i fp fp' dc mw shared :
   0 <= dc -> Forall (fun o => 0 <= static_w o mw) opts ->
@@ -28,8 +28,8 @@ Lemma cw_phase1_fp opts i fp fp' dc mw shared :
 Proof.
   intros Hd Hall. revert i shared. induction Hall as [|o opts Ho Hall IH]; intros i shared Hs; [reflexivity|].
   cbn [cw_phase1]. cbn [map zsum] in Hs. pose proof (static_sum_nonneg opts dc mw Hd Hall).
-  assert (E : shared <? static_w o mw + dc = false) by lia. rewrite E. cbn [andb].
-  rewrite (IH (i + 1) (shared - (static_w o mw + dc))) by lia. reflexivity.
+  assert (E : shared <? static_w o mw + dc = false) by qlia. rewrite E. cbn [andb].
+  rewrite (IH (i + 1) (shared - (static_w o mw + dc))) by qlia. reflexivity.
 Qed.
 
 Lemma column_widths_fp opts fp fp' dc mw maxcol :
@@ -55,7 +55,7 @@ Proof.
   intros Hf Hi. pose proof (columns_sizes_fp items fp fp' dc mw s Hf) as E.
   unfold columns_fits in *. rewrite E.
   repeat (apply andb_true_iff in Hf as [Hf ?]).
-  repeat (apply andb_true_iff; split); try assumption; lia.
+  repeat (apply andb_true_iff; split); try assumption; qlia.
 Qed.
 
 (* ------------------------------------------------------------------------------------------ *)
@@ -136,7 +136,7 @@ Proof.
 Qed.
 
 Lemma forall2_length {A B} (R : A -> B -> Prop) a b : Forall2 R a b -> length a = length b.
-Proof. induction 1; cbn; lia. Qed.
+Proof. induction 1; cbn; qlia. Qed.
 
 Lemma existsb_cong {A} (f : A -> bool) (R : A -> A -> Prop) a b :
   (forall x y, R x y -> f x = f y) -> Forall2 R a b -> existsb f a = existsb f b.
@@ -345,7 +345,7 @@ Section SingleChildF.
       assert (Hsizes : forall q, In q (n_place (node_of (K c) [v_info (view c)]) s) -> p_size q = cs).
       { intros q Hq. assert (Hq0 : p_idx q = 0).
         { specialize (Hkids q Hq). unfold nth_view in Hkids. destruct (Z.eq_dec (p_idx q) 0) as [->|Hne]; [reflexivity|].
-          rewrite nthz_cons in Hkids. assert (E0 : p_idx q =? 0 = false) by lia. rewrite E0 in Hkids.
+          rewrite nthz_cons in Hkids. assert (E0 : p_idx q =? 0 = false) by qlia. rewrite E0 in Hkids.
           destruct (p_idx q <? 0); [discriminate Hkids|]. rewrite nthz_nil in Hkids. discriminate Hkids. }
         rewrite (Hfun q Hq Hq0). exact Hps. }
       destruct (K_cong c (v_info (view c)) (v_info (view c2)) s cs Hsizes Hieq) as [Epl [Efit Einfo]].
@@ -355,13 +355,13 @@ Section SingleChildF.
         * rewrite Efit. exact Hn.
         * intros q Hq. rewrite Epl in Hq. exists q. auto.
         * intros q Hq Hqi. rewrite (Hfun q Hq Hqi), Hps. exact Hfit'.
-        * unfold zlen. cbn. lia.
+        * unfold zlen. cbn. qlia.
       + intro Hne. destruct (Hasked Hne) as [Hsel [Hrow [x Hcur]]].
         rewrite K_sel. change (nth_info [v_info (view c)] 0) with (v_info (view c)).
         split; [exact Hsel|].
         destruct (K_within c _ s p Hn Hpos Hp) as [_ [_ [Hy0 Hy1]]].
         rewrite Hpi, Hps in Hy1. change (nth_info [v_info (view c)] 0) with (v_info (view c)) in Hy1.
-        split; [lia|].
+        split; [qlia|].
         destruct Hieq as [[Es [Ec [Em Eb]]] Erows].
         apply (interp_cursor_after (K c2) _ [view c2] s 0 cs x r' row).
         * cbn [map]. apply K_cursor.
@@ -415,7 +415,7 @@ Proof.
     split; [repeat split; cbn; auto|]. cbn [i_rows]. intro Esn.
     destruct (padding_values (PadOpts a b c0 d e f g) (fst s)) as [l r].
     specialize (H _ (or_introl eq_refl)). cbn [p_size] in H. subst cs. cbn [fst snd] in Er.
-    replace (fst s - l - r) with (fst s - (l + r)) by lia. apply Er. exact Esn.
+    replace (fst s - l - r) with (fst s - (l + r)) by qlia. apply Er. exact Esn.
 Qed.
 
 Lemma move_okf_filler c a b c0 d e f g : MoveOKF c -> MoveOKF (Filler c a b c0 d e f g).
@@ -481,8 +481,8 @@ Proof.
     inversion E; subst i0 cs0 c' r' nf. clear E.
     destruct (pile_find_placed its fp s row i wrow cs Hn Efind) as [Hi [Hw Hpl]].
     destruct (Hpl fp) as [Hp Hfun]. destruct (Hpl i) as [Hp' _].
-    assert (Hik : 0 <= i < zlen kids) by lia.
-    destruct (nthz_some items i) as [[o ci] Hni]; [lia|].
+    assert (Hik : 0 <= i < zlen kids) by qlia.
+    destruct (nthz_some items i) as [[o ci] Hni]; [qlia|].
     assert (Ekid : forall d, nth_view d kids i = view ci) by (intro d; unfold kids; apply (nth_view_kids d items i o ci Hni)).
     rewrite Ekid.
     assert (Einfo : nth_info (map snd its) i = v_info (view ci)).
@@ -504,11 +504,11 @@ Proof.
     (* the item infos afterwards are related to the ones before *)
     assert (Hits : nthz its i = Some (o, v_info (view ci))).
     { unfold its. apply nthz_combine; [rewrite nthz_map, Hni; reflexivity|].
-      rewrite <- Einfo, Eki. unfold nth_info. destruct (nthz_some (map v_info kids) i) as [x Hx]; [rewrite zlen_map; lia|].
+      rewrite <- Einfo, Eki. unfold nth_info. destruct (nthz_some (map v_info kids) i) as [x Hx]; [rewrite zlen_map; qlia|].
       rewrite Hx. reflexivity. }
     assert (Hrs : nthz (pile_rows_sizes its s) i = Some (crows (v_info (view ci)) cs, cs)).
     { destruct (pile_find_inv _ _ _ _ _ _ _ Efind) as [pre [x [post [Ers [Ei [_ [Ecs _]]]]]]].
-      pose proof (nthz_app_mid pre x post) as Hx. rewrite <- Ers in Hx. replace (zlen pre) with i in Hx by lia.
+      pose proof (nthz_app_mid pre x post) as Hx. rewrite <- Ers in Hx. replace (zlen pre) with i in Hx by qlia.
       destruct x as [h0 cs0]. cbn [snd] in Ecs. subst cs0.
       destruct (pile_rows_sizes_nth its s i h0 cs Hx) as [o1 [ci1 [Hi1 [Hc1 _]]]]. rewrite Hits in Hi1. inversion Hi1; subst o1 ci1.
       rewrite Hc1. exact Hx. }
@@ -537,13 +537,13 @@ Proof.
       * unfold pile_info. cbn [i_sel]. apply existsb_exists.
         exists (o, v_info (view ci)). split; [eapply nthz_In; eauto|]. exact Esel.
       * pose proof (pile_within its fp s _ Hn Hpos Hp) as [_ [_ [Hy0 Hy1]]]. cbn [p_y p_idx p_size n_info] in Hy0, Hy1.
-        rewrite Einfo in Hy1. clear - Hy0 Hy1 Hrow Hw. lia.
+        rewrite Einfo in Hy1. clear - Hy0 Hy1 Hrow Hw. qlia.
       * eapply (interp_cursor_after _ _ (set_nth_v kids i (view c2)) s i cs x (row - wrow) row).
         -- rewrite map_info_set_nth, <- Eki'. apply (pile_cursor_ok its' i).
         -- cbn [n_fits]. rewrite (pile_fits_cong s its' its i Hrel). apply (pile_fits_refocus its fp s i Hn). exact Hi.
         -- exact Hpos.
         -- exists (Placed i 0 wrow cs (i =? i) false). cbn [n_place p_isfocus p_idx p_size p_y].
-           split; [rewrite (pile_place_cong s its' its i Hrel); exact Hp'|]. clear. repeat split; lia.
+           split; [rewrite (pile_place_cong s its' its i Hrel); exact Hp'|]. clear. repeat split; qlia.
         -- rewrite nth_view_set_same by exact Hik. exact Hcur.
         -- rewrite nth_view_set_same by exact Hik. rewrite Es. exact Esel.
         -- rewrite nth_view_set_same by exact Hik. apply hasmove_hascur. unfold info. rewrite Em. exact Ehm.
@@ -575,7 +575,7 @@ Proof.
             <- (map_map fst (fun ob : copt * bool => static_w (fst ob) mw + dc) b), Ho. reflexivity. }
   rewrite E1, E2.
   repeat (apply andb_true_iff in Hf as [Hf ?]).
-  repeat (apply andb_true_iff; split); try assumption; lia.
+  repeat (apply andb_true_iff; split); try assumption; qlia.
 Qed.
 
 Lemma columns_place_refocus (items : col_items) fp fp' dc mw s q :
@@ -638,7 +638,7 @@ Proof.
     split; [|split; [|intro H; congruence]].
     + apply columns_info_ieq; [apply forall2_refl; intro; apply feq_refl|]. intros _. apply (columns_sizes_fp its fp i dc mw s Hn).
     + eapply (interp_fits_renode (Columns items fp dc mw) (Columns items i dc mw)); [exact Hf| |].
-      * cbn [n_fits]. apply (columns_fits_refocus its fp i dc mw s Hn). lia.
+      * cbn [n_fits]. apply (columns_fits_refocus its fp i dc mw s Hn). qlia.
       * cbn [n_place]. intros q Hq. apply (columns_place_refocus its fp i dc mw s q Hn Hq).
   - unfold columns_move in E.
     destruct (columns_best (columns_sizes its fp dc mw s) (map (fun it : copt * bool * cinfo => i_sel (snd it)) its) 0 0 dc col None)
@@ -646,7 +646,7 @@ Proof.
     destruct (i_hasmove (nth_info (map snd its) i0)) eqn:Ehm; [|discriminate].
     inversion E; subst i0 cs0 c' r' nf. clear E.
     destruct (columns_best_placed its fp dc mw s col i x0 e0 cs Hn Ebest) as [Hi [Esel [Hp Hfun]]].
-    assert (Hii : 0 <= i < zlen items) by lia. assert (Hik : 0 <= i < zlen kids) by lia.
+    assert (Hii : 0 <= i < zlen items) by qlia. assert (Hik : 0 <= i < zlen kids) by qlia.
     pose proof (columns_fits_refocus its fp i dc mw s Hn Hi) as Hni_fit.
     pose proof (columns_sizes_fp its fp i dc mw s Hn) as Esz.
     assert (Ebest' : columns_best (columns_sizes its i dc mw s) (map (fun it : copt * bool * cinfo => i_sel (snd it)) its) 0 0 dc col None
@@ -681,7 +681,7 @@ Proof.
     assert (Hent : exists w h, nthz (columns_sizes its i dc mw s) i = Some (w, h, cs)).
     { destruct (columns_best_inv _ _ _ _ _ _ _ _ Ebest') as [Hx|[pre [t [post [Ecs [_ Hr]]]]]]; [discriminate|].
       injection Hr as Ei Ex Ee Ec. pose proof (nthz_app_mid pre t post) as Hx. rewrite <- Ecs in Hx.
-      replace (zlen pre) with i in Hx by (clear - Ei; lia). destruct t as [[w h] csz]. cbn [snd] in Ec. subst csz.
+      replace (zlen pre) with i in Hx by (clear - Ei; qlia). destruct t as [[w h] csz]. cbn [snd] in Ec. subst csz.
       exists w, h. exact Hx. }
     destruct Hent as [w [h Hent]].
     destruct (columns_sizes_nth_width its i dc mw s i w h cs o ib (v_info (view ci)) Hent Hits) as [Hwn Hflow].
@@ -718,13 +718,13 @@ Proof.
       * unfold columns_info. cbn [i_sel]. apply existsb_exists.
         exists (o, ib, v_info (view ci)). split; [eapply nthz_In; eauto|]. exact Esel.
       * pose proof (columns_within its fp dc mw s _ Hn Hpos Hp) as [_ [_ [Hy0 Hy1]]]. cbn [p_y p_idx p_size n_info] in Hy0, Hy1.
-        rewrite Einfo in Hy1. clear - Hy0 Hy1 Hrow. lia.
+        rewrite Einfo in Hy1. clear - Hy0 Hy1 Hrow. qlia.
       * eapply (interp_cursor_after _ _ (set_nth_v kids i (view c2)) s i cs x row row).
         -- rewrite map_info_set_nth, <- Eki'. apply (columns_cursor_ok its' i dc mw).
         -- cbn [n_fits]. exact Hfit2.
         -- exact Hpos.
         -- exists (Placed i x0 0 cs (i =? i) false). cbn [n_place p_isfocus p_idx p_size p_y].
-           split; [rewrite Epl; exact Hp'|]. clear. repeat split; lia.
+           split; [rewrite Epl; exact Hp'|]. clear. repeat split; qlia.
         -- rewrite nth_view_set_same by exact Hik. exact Hcur.
         -- rewrite nth_view_set_same by exact Hik. rewrite Es. exact Esel.
         -- rewrite nth_view_set_same by exact Hik. apply hasmove_hascur. unfold info. rewrite Em. exact Ehm.
